@@ -4,5 +4,114 @@ use super::*;
 
 pub(crate) use super::read::verif_kani::kani_reader;
 
+// ---- WAL blob codec: bounded native enumeration (run by `cargo kani playback`) ------------------
+#[cfg(test)]
+#[derive(Clone, Debug, PartialEq)]
+enum NativeEntry {
+    Clear(u64),
+    Update([u8; 32], Vec<usize>, u64, u64),
+}
+
+#[cfg(test)]
+fn native_alphabet() -> Vec<NativeEntry> {
+    let mut id = [0u8; 32];
+    for (i, b) in id.iter_mut().enumerate() {
+        *b = 0xA0 ^ (i as u8).wrapping_mul(7);
+    }
+    vec![
+        NativeEntry::Clear(0x0102_0304_0506_0708),
+        NativeEntry::Clear(0),
+        NativeEntry::Update(id, vec![], 0, 0x1112_1314_1516_1718),
+        NativeEntry::Update(id, vec![0], 0x0807_0605_0403_0201, 3),
+        NativeEntry::Update([0xFF; 32], vec![1, 64, 125], u64::MAX, u64::MAX - 1),
+        NativeEntry::Update(id, (0..126).collect(), 1 << 63, 0x8000_0000_0000_0001),
+    ]
+}
+
+#[cfg(test)]
+fn native_node(tag: usize, i: usize) -> [u8; 32] {
+    let mut n = [0u8; 32];
+    for (j, b) in n.iter_mut().enumerate() {
+        *b = (tag as u8).wrapping_mul(31) ^ (i as u8).wrapping_mul(5) ^ (j as u8);
+    }
+    n
+}
+
+/// Bounded native enumeration (not a proof): every sequence of 0..=3 entries over a six-entry
+/// alphabet (clears and updates with 0, 1, 3 and 126 changed nodes, asymmetric multi-byte field
+/// values) and three sequence numbers: what WalBlobBuilder writes, WalBlobReader reads back entry by
+/// entry and field by field, followed by the end of the log; the blob is padded with zeros to a whole
+/// number of pages.
+#[cfg(test)]
+#[test]
+fn native_enum_wal_blob_roundtrip() {
+    use crate::{merkle::ElidedChildren, page_diff::PageDiff};
+    let alpha = native_alphabet();
+    let mut builder = WalBlobBuilder::new().unwrap();
+    let mut cases = 0;
+    let mut seqs: Vec<Vec<usize>> = vec![vec![]];
+    for len in 1..=3 {
+        let mut idx = vec![0usize; len];
+        loop {
+            seqs.push(idx.clone());
+            let mut k = 0;
+            while k < len {
+                idx[k] += 1;
+                if idx[k] < alpha.len() { break; }
+                idx[k] = 0;
+                k += 1;
+            }
+            if k == len { break; }
+        }
+    }
+    for seq in &seqs {
+        for seqn in [0u32, 0x0A0B_0C0D, u32::MAX] {
+            builder.reset(seqn);
+            for (pos, &e) in seq.iter().enumerate() {
+                match &alpha[e] {
+                    NativeEntry::Clear(b) => builder.write_clear(*b),
+                    NativeEntry::Update(id, changed, elided, bucket) => {
+                        let mut diff = PageDiff::default();
+                        for &c in changed { diff.set_changed(c); }
+                        let nodes: Vec<[u8; 32]> = (0..changed.len()).map(|i| native_node(pos, i)).collect();
+                        builder.write_update(*id, &diff, nodes.into_iter(), ElidedChildren::from_bytes(elided.to_le_bytes()), *bucket);
+                    }
+                }
+            }
+            builder.finalize();
+            let blob = builder.as_slice().to_vec();
+            assert!(blob.len() % crate::io::PAGE_SIZE == 0 && !blob.is_empty());
+            let mut reader = super::read::verif_kani::kani_reader_over(blob.clone());
+            assert_eq!(reader.sync_seqn(), seqn);
+            for (pos, &e) in seq.iter().enumerate() {
+                let got = reader.read_entry().unwrap().expect("entry missing");
+                match (&alpha[e], got) {
+                    (NativeEntry::Clear(b), WalEntry::Clear { bucket }) => assert_eq!(*b, bucket),
+                    (NativeEntry::Update(id, changed, elided, bucket), WalEntry::Update { page_id, page_diff, changed_nodes, elided_children, bucket: got_bucket }) => {
+                        assert_eq!(*id, page_id);
+                        assert_eq!(*bucket, got_bucket);
+                        assert_eq!(elided.to_le_bytes(), elided_children.to_bytes());
+                        let mut diff = PageDiff::default();
+                        for &c in changed { diff.set_changed(c); }
+                        assert_eq!(diff, page_diff);
+                        let want: Vec<[u8; 32]> = (0..changed.len()).map(|i| native_node(pos, i)).collect();
+                        assert_eq!(want, changed_nodes);
+                    }
+                    (want, got) => panic!("entry {} decoded as another kind: wrote {:?}, read {:?}", pos, want, got),
+                }
+            }
+            assert!(reader.read_entry().unwrap().is_none(), "entries after the last one");
+            let used = reader_offset(&reader);
+            assert!(blob[used..].iter().all(|b| *b == 0), "padding is not zero");
+            cases += 1;
+        }
+    }
+    assert!(cases == (1 + 6 + 36 + 216) * 3);
+}
+#[cfg(test)]
+fn reader_offset(r: &WalBlobReader) -> usize {
+    super::read::verif_kani::kani_reader_offset(r)
+}
+
 #[cfg(test)]
 include!("/verif/.build/playback/bitbox_wal.inc");
